@@ -1,4 +1,4 @@
-(* GoMsgDiscipline.v — from the source text of 24 rule functions: whatever a rule function writes is nothing, or ONE
+(* GoMsgDiscipline.v — from the source text of 29 rule functions: whatever a rule function writes is nothing, or ONE
    clause built by GetJoinValidErrStr whose explanation is the rule's custom message alone when the rule text carries
    one, and the default wording (behind the English label) only when it carries none; the two exceptions come before
    the message is looked at: a value of the wrong kind, a rule that cannot be read. *)
@@ -6,7 +6,8 @@ From Coq Require Import String.
 From PGV Require Import Base.Bytes Base.GoStr Base.GoNum Base.Utf8 Base.MiniGo Regex.Re Regex.Rx.
 From PGV Require Import Extracted.SourceConst Extracted.SourceRegex Extracted.SourceFnsRule Extracted.SourceFnsFmt.
 From PGV Require Import Model.RuleText Model.Value Model.Clause Model.Rules Model.GoRule.
-From PGV Require Import Proofs.GoRuleProofs Proofs.GoFmtProofs.
+From PGV Require Import Extracted.SourceFnsIn Extracted.SourceFnsInts.
+From PGV Require Import Proofs.GoRuleProofs Proofs.GoFmtProofs Proofs.GoInProofs Proofs.GoIntsProofs Proofs.GoUniqueProofs Proofs.GoDatetimeProofs.
 Open Scope Z_scope.
 
 Section Shape.
@@ -80,10 +81,44 @@ Section Shape.
       rewrite <- E. apply sh_custom. rewrite E. discriminate.
   Qed.
 
+  Lemma ints_text_shape vn obj field v : shape vn obj field (ints_text FE vn obj field v).
+  Proof.
+    unfold ints_text. destruct v; try (destruct (is_num_kind _ _); [apply sh_none|apply sh_rule]);
+      match goal with |- context[forallb ?f ?l] => destruct (forallb f l) end; first [apply sh_none | apply msg_text_shape].
+  Qed.
+  Lemma unique_text_shape vn obj field v : shape vn obj field (unique_text FE vn obj field v).
+  Proof.
+    unfold unique_text. destruct v; try apply sh_rule;
+      match goal with |- context[Nat.eqb ?a ?b] => destruct (Nat.eqb a b) end; first [apply sh_none | apply msg_text_shape].
+  Qed.
+  Lemma datetime_text_shape vn obj field v : shape vn obj field (datetime_text orc vn obj field v).
+  Proof.
+    unfold datetime_text. destruct v; try apply sh_kind. destruct (time_ok orc _ s); [apply sh_none|apply msg_text_shape].
+  Qed.
+  Lemma find_hit_total g tv : (forall x y, g x y <> None) -> forall opts, find_hit g tv opts <> None.
+  Proof.
+    intros Hg. induction opts as [|o r IH]; cbn [find_hit]; [discriminate|].
+    destruct (g tv (trim [QUOTE] o)) as [[|]|] eqn:E; [discriminate|exact IH|exfalso; exact (Hg _ _ E)].
+  Qed.
+  Lemma in_text_total g vn obj field v : (forall x y, g x y <> None) -> in_text FE g vn obj field v <> None.
+  Proof.
+    intros Hg. unfold in_text. destruct (in_vals (pk_val vn)) as [iv|]; [|discriminate].
+    destruct (match v with VStr x => Some x | _ => _ end) as [tv|]; [|discriminate].
+    pose proof (find_hit_total g tv Hg (names_split SLASH iv)) as H. destruct (find_hit g tv _) as [[|]|]; [discriminate|discriminate|congruence].
+  Qed.
+  Lemma in_text_shape g vn obj field v t : in_text FE g vn obj field v = Some t -> shape vn obj field t.
+  Proof.
+    unfold in_text. destruct (in_vals (pk_val vn)) as [iv|]; [|intros H; inversion H; apply sh_rule].
+    destruct (match v with VStr x => Some x | _ => _ end) as [tv|]; [|intros H; inversion H; apply sh_rule].
+    destruct (find_hit g tv _) as [[|]|]; intros H; inversion H; [apply sh_none|].
+    destruct (pk_msg vn) as [|c m] eqn:E; [apply sh_default; exact E|].
+    rewrite <- E. apply sh_custom. rewrite E. discriminate.
+  Qed.
+
   Definition rule_fns : list fn :=
     [fn_To; fn_OTo; fn_Ge; fn_Gt; fn_Le; fn_Lt; fn_Eq; fn_NoEq;
      fn_Phone; fn_Email; fn_IDCard; fn_Ip; fn_Ipv4; fn_Ipv6; fn_Year; fn_Year2Month; fn_Date; fn_Prefix; fn_Suffix;
-     fn_Int; fn_Float; fn_Json; fn_File; fn_Dir].
+     fn_Int; fn_Float; fn_Json; fn_File; fn_Dir; fn_Ints; fn_Unique; fn_In; fn_Include; fn_Datetime].
 
   Theorem message_discipline f vn obj field v : In f rule_fns ->
     exists t, run_rule orc U FE ST f vn obj field v = Some t /\ shape vn obj field t.
@@ -113,6 +148,15 @@ Section Shape.
     destruct Hin as [<-|Hin]; [exact (ex_intro _ _ (conj (json_from_source orc U FE ST vn obj field v) (json_text_shape vn obj field v)))|].
     destruct Hin as [<-|Hin]; [exact (ex_intro _ _ (conj (file_from_source orc U FE ST vn obj field v) (file_text_shape false vn obj field v)))|].
     destruct Hin as [<-|Hin]; [exact (ex_intro _ _ (conj (dir_from_source orc U FE ST vn obj field v) (file_text_shape true vn obj field v)))|].
+    destruct Hin as [<-|Hin]; [exact (ex_intro _ _ (conj (ints_from_source orc U FE ST vn obj field v) (ints_text_shape vn obj field v)))|].
+    destruct Hin as [<-|Hin]; [exact (ex_intro _ _ (conj (unique_from_source orc U FE ST vn obj field v) (unique_text_shape vn obj field v)))|].
+    destruct Hin as [<-|Hin].
+    { rewrite in_rule_from_source. destruct (in_text FE g_eq vn obj field v) as [t|] eqn:E; [|exfalso; revert E; apply in_text_total; intros; discriminate].
+      exists t. split; [reflexivity|]. apply (in_text_shape _ _ _ _ _ _ E). }
+    destruct Hin as [<-|Hin].
+    { rewrite include_rule_from_source. destruct (in_text FE g_contains vn obj field v) as [t|] eqn:E; [|exfalso; revert E; apply in_text_total; intros; discriminate].
+      exists t. split; [reflexivity|]. apply (in_text_shape _ _ _ _ _ _ E). }
+    destruct Hin as [<-|Hin]; [exact (ex_intro _ _ (conj (datetime_from_source orc U FE ST vn obj field v) (datetime_text_shape vn obj field v)))|].
     destruct Hin.
   Qed.
 End Shape.
